@@ -300,7 +300,12 @@ pub fn run(a: &Args, rep: &mut Report) {
                 v.push(Insn::new(MOV64_IMM, 2, 0, 0, 0));
             }
             v.push(Insn::new(LDDW, 3, 0, 0, 7));
-            v.push(Insn::new(0, 0, 0, 0, 9));
+            // the second half only needs a zero opcode: its other fields are arbitrary
+            if rng.chance(1, 2) {
+                v.push(Insn::new(0, 0, 0, 0, 9));
+            } else {
+                v.push(Insn::new(0, rng.below(16) as u8, rng.below(16) as u8, rng.next() as i16, rng.next() as i32));
+            }
             for _ in 0..nc {
                 v.push(Insn::new(MOV64_IMM, 4, 0, 0, 0));
             }
